@@ -13,7 +13,9 @@ MANIFEST = {
             "(key != invalid key, Insert only of keys not yet present, field zero before Write*, Pivot32 product < 2^64). "
             "Probing table: hash arbitrary, any bucket count >= 1, keys/values naturals; AutoProbing's double-precision "
             "threshold `buckets * 0.9` is taken as floor(9*buckets/10) and its initial size uses float32 — both exercised by "
-            "the correspondence stream on every construction/doubling, not proved.",
+            "the correspondence stream on every construction/doubling, not proved.  Vocabularies: words are their 64-bit "
+            "MurmurHash (abstract, injective and non-zero on the occurring words as explicit hypotheses); std::sort inside "
+            "JointSort is replaced by any sort (result unique on distinct hashes, proved).",
     "technique": "Lean 4 proof (induction/invariants over an executable model) + differential correspondence with the real code",
 }
 
@@ -32,6 +34,10 @@ REQUIRED = ["KV.C20.read_eq", "KV.C20.write_read", "KV.C20.write_frame", "KV.C20
             "KV.C20.inserted_found", "KV.C20.auto_inserted_found", "KV.C20.firstEmpty_diverges_iff",
             "KV.C20.sized_table_holds", "KV.C20.probe_reads_in_range", "KV.C20.double_frame",
             "KV.C20.run_with_double_refines_map",
+            # vocabularies on top of the tables
+            "KV.C20.vocab_ids_indep", "KV.C20.vocab_ids_first_occurrence", "KV.C20.vocab_initial_arg_ok",
+            "KV.C20.hash_inj_transfer", "KV.C20.probing_vocab_correct", "KV.C20.probing_vocab_sized",
+            "KV.C20.probing_vocab_insert_ids", "KV.C20.sorted_vocab_correct", "KV.C20.joint_sort_unique",
             "KV.C20.roundBuckets", "KV.C20.double_without_rollover_loses"]
 
 
@@ -185,7 +191,10 @@ def gen_sorted_array(rng, bits):
 
 def search_stream(ctx, hexe, dexe, n_cases):
     found = False
+    n_viol = 0
     for ci in range(n_cases):
+        if n_viol >= 3:
+            break
         bits = ctx.rng.choice([32, 64])
         style, a = gen_sorted_array(ctx.rng, bits)
         top = (1 << bits) - 1
@@ -212,7 +221,7 @@ def search_stream(ctx, hexe, dexe, n_cases):
             oracle.append((len(ops), want)); ops.append("bsuf64 %d %d" % (k, bound))
             if bits == 32:
                 oracle.append((len(ops), want)); ops.append("bsuf32 %d %d" % (k, bound))
-        (rc1, o1, e1), (rc2, o2, e2) = stream.both(hexe, dexe, ops)
+        (rc1, o1, e1), (rc2, o2, e2) = stream.both(hexe, dexe, ops, timeout=20)
         ctx.count(("search", tuple(ops)), nontrivial=len(a) >= 2)
         ctx.hist("search.style", style)
         ctx.hist("search.bits", bits)
@@ -222,6 +231,7 @@ def search_stream(ctx, hexe, dexe, n_cases):
             ctx.violation("harness died on search script (rc=%s): %s" % (rc1, e1[-400:]),
                           {"stream": "search", "ops": ops, "stderr": e1[-2000:]})
             found = True
+            n_viol += 1
             continue
         for idx, want in oracle:
             if idx >= len(o1) or o1[idx] != want:
@@ -230,6 +240,7 @@ def search_stream(ctx, hexe, dexe, n_cases):
                     {"stream": "search", "ops": [ops[0], ops[idx]], "impl": o1[idx] if idx < len(o1) else None,
                      "expected": want})
                 found = True
+                n_viol += 1
                 break
         d = stream.first_diff(o1, o2)
         if d is not None or rc2 != 0:
@@ -238,6 +249,7 @@ def search_stream(ctx, hexe, dexe, n_cases):
                            "impl": o1[d] if d is not None and d < len(o1) else None,
                            "model": o2[d] if d is not None and d < len(o2) else None}, no_input=not found)
             found = True
+            n_viol += 1
     return found
 
 
@@ -668,6 +680,279 @@ def probing_stream(ctx, hexe, dexe, n_cases):
     return found
 
 
+# ---------------------------------------------------------------- vocabularies on top of the tables (lm/vocab.hh)
+import struct
+
+VOCAB_MULTS = [1.01, 1.2, 1.5, 2.0, 5.0]
+SPECIAL_WORDS = ["<unk>", "<UNK>", "<s>", "</s>"]
+
+
+def hexw(w):
+    return w.encode("latin-1").hex() if w else "-"
+
+
+def fbits(x):
+    return struct.unpack("<I", struct.pack("<f", x))[0]
+
+
+def vocab_pool(rng, vexe):
+    """One probe pass on the real code: MurmurHash of a pool of words (the model works on these 64-bit
+    values; Murmur itself is not modelled) and the bucket counts of ProbingVocabulary::Size.  Returns
+    (hash dict, list of groups of words whose hashes are adjacent in sorted order with small gaps, bucket dict)."""
+    alpha = "abcdefghijklmnopqrstuvwxyzABCXYZ0123456789<>/_-.,'\xe9\xfc\xff\x01"
+    words = list(SPECIAL_WORDS) + ["<Unk>", "<S>", "</S>", "unk", "s", "a", "b", "the", "<unk", "unk>", "<<unk>>"]
+    seen = set(words)
+    while len(words) < 3000:
+        w = "".join(rng.choice(alpha) for _ in range(rng.choice([1, 2, 2, 3, 4, 5, 7, 10, 17])))
+        if w not in seen:
+            seen.add(w)
+            words.append(w)
+    lines = ["hash " + hexw(w) for w in words]
+    combos = [(e, m) for e in range(0, 90) for m in VOCAB_MULTS]
+    lines += ["pvsize %d %d" % (e, fbits(m)) for e, m in combos]
+    rc, out, err = stream.run_lines(vexe, lines, timeout=120)
+    if rc != 0 or len(out) != len(lines):
+        return None, None, "vocab harness probe pass failed rc=%s %s" % (rc, err[-500:])
+    hashes = {}
+    byhash = {}
+    for w, o in zip(words, out):
+        try:
+            h = int(o)
+        except ValueError:
+            return None, None, "vocab harness: %r for word %r" % (o, w)
+        # contract of the C++ code: hash 0 is the invalid key of the tables; injectivity is the theorems' hypothesis
+        if h == 0 or h in byhash:
+            continue
+        hashes[w] = h
+        byhash[h] = w
+    for w in SPECIAL_WORDS:
+        if w not in hashes:
+            return None, None, "special word %r hashes to 0 or collides" % w
+    buckets = {}
+    for (e, m), o in zip(combos, out[len(words):]):
+        buckets[(e, m)] = int(o)
+    order = sorted((h, w) for w, h in hashes.items())
+    gaps = sorted((order[i + 1][0] - order[i][0], i) for i in range(len(order) - 1))[:40]
+    close = [[order[i][1], order[i + 1][1]] + ([order[i + 2][1]] if i + 2 < len(order) else []) for _, i in gaps]
+    return hashes, close, buckets
+
+
+def vocab_words(rng, hashes, close, n, specials="maybe"):
+    """n distinct pool words; with the special words mixed in at random positions"""
+    pool = [w for w in hashes if w not in SPECIAL_WORDS]
+    ws = rng.sample(pool, min(n, len(pool)))
+    if close and rng.random() < 0.5:
+        for grp in rng.sample(close, min(len(close), rng.randrange(1, 4))):
+            for w in grp:
+                if w not in ws and w not in SPECIAL_WORDS:
+                    ws.insert(rng.randrange(0, len(ws) + 1), w)
+    if specials == "maybe":
+        for sw in SPECIAL_WORDS:
+            if rng.random() < 0.5:
+                ws.insert(rng.choice([0, 0, len(ws), rng.randrange(0, len(ws) + 1)]), sw)
+    return ws
+
+
+def gen_vocab_case(rng, hashes, close, buckets):
+    kind = rng.choice(["growable", "growable", "probing", "sorted"])
+    H = hashes
+    ops = ["vconst %d %d %d %d" % tuple(H[w] for w in SPECIAL_WORDS)]
+
+    def wop(op, w):
+        ops.append("%s %s %d" % (op, hexw(w), H[w]))
+    meta = {"kind": kind}
+    if kind == "growable":
+        init = rng.choice([0, 0, 1, 2, 3, 5, 7, 10, 100, 5000, rng.randrange(0, 200)])
+        types = vocab_words(rng, H, close, rng.choice([1, 3, 10, 30, 100, rng.randrange(1, 300)]))
+        n_tok = rng.randrange(1, 3 * len(types) + 5)
+        ops.append("gnew %d" % init)
+        known = set()
+        for _ in range(n_tok):
+            w = rng.choice(types) if rng.random() < 0.8 else rng.choice(types[:max(1, len(types) // 5)])
+            wop("gfoi", w)
+            known.add(w)
+            r = rng.random()
+            if r < 0.1:
+                wop("gidx", rng.choice(types))
+            elif r < 0.13:
+                ops.append("gsize")
+        for w in rng.sample(types, min(len(types), 8)) + SPECIAL_WORDS:
+            wop("gidx", w)
+        ops.append("gsize")
+        meta.update(init=init, types=len(known))
+    elif kind == "probing":
+        ws = vocab_words(rng, H, close, rng.choice([0, 1, 2, 5, 20, rng.randrange(0, 80)]))
+        mult = rng.choice(VOCAB_MULTS)
+        entries = len(ws)          # counts[0] of the ARPA header (includes <unk> if present)
+        short = rng.random() < 0.08 and len(ws) > 3
+        if short:
+            entries = rng.randrange(0, len(ws) // 2)    # header lies: the table must throw, not loop
+        entries = min(entries, 89)
+        ops.append("pvnew %d %d %d" % (entries, fbits(mult), buckets[(entries, mult)]))
+        for w in ws:
+            wop("pvins", w)
+        ops.append("pvfin")
+        absent = [w for w in rng.sample(list(H), 6) if w not in ws]
+        for w in rng.sample(ws, min(len(ws), 10)) + absent + SPECIAL_WORDS:
+            wop("pvidx", w)
+        if ws and rng.random() < 0.06:
+            wop("pvins", rng.choice(ws))     # duplicate word: outside the contract, compared with the model only
+            for w in rng.sample(ws, min(len(ws), 4)):
+                wop("pvidx", w)
+        meta.update(types=len(ws), mult=mult, short=short)
+    else:
+        ws = vocab_words(rng, H, close, rng.choice([0, 1, 2, 3, 5, 20, 100, rng.randrange(0, 300)]))
+        ops.append("svnew %d" % len(ws))
+        for w in ws:
+            wop("svins", w)
+        ops.append("svfin")
+        absent = [w for w in rng.sample(list(H), 8) if w not in ws]
+        for w in rng.sample(ws, min(len(ws), 12)) + absent + SPECIAL_WORDS:
+            wop("svidx", w)
+        meta.update(types=len(ws))
+    return ops, meta
+
+
+def vocab_oracle(ops):
+    """Independent of the Lean model: Python dicts keyed by the word *string*; only SortedVocabulary's ids use the
+    hash values (they are defined as the rank in hash order).  One expectation per op (None = not judged)."""
+    out = []
+    unkw = {hexw("<unk>"), hexw("<UNK>")}
+    g = {}
+    pv, pv_n, pv_buckets, pv_saw, pv_entries, pv_dead = {}, 0, 1, False, 0, False
+    sv, sv_saw, sv_fin = [], False, None
+    for op in ops:
+        w = op.split()
+        o = w[0]
+        if o == "vconst":
+            out.append("ok")
+        elif o == "gnew":
+            g = {hexw("<unk>"): 0, hexw("<s>"): 1, hexw("</s>"): 2}
+            out.append("ok 3")
+        elif o == "gfoi":
+            if w[1] not in g:
+                g[w[1]] = len(g)
+            out.append(str(g[w[1]]))
+        elif o == "gidx":
+            out.append(str(g.get(w[1], 0)))
+        elif o == "gsize":
+            out.append(str(len(g)))
+        elif o == "pvnew":
+            pv, pv_saw, pv_entries, pv_dead = {}, False, 0, False
+            pv_buckets = int(w[3])
+            out.append("ok %d" % pv_buckets)
+        elif o == "pvins":
+            if w[1] in unkw:
+                pv_saw = True
+                out.append("0")
+            elif w[1] in pv:
+                pv_dead = True      # duplicate Insert: undefined map view from here on
+                out.append(None)
+            else:
+                pv_entries += 1
+                if pv_entries >= pv_buckets:
+                    out.append("full")
+                else:
+                    pv[w[1]] = len(pv) + 1
+                    out.append(str(pv[w[1]]))
+        elif o == "pvidx":
+            out.append(None if pv_dead else str(pv.get(w[1], 0)))
+        elif o == "pvfin":
+            out.append("%d %d %d %d" % (len(pv) + 1, pv_saw, pv.get(hexw("<s>"), 0), pv.get(hexw("</s>"), 0)))
+        elif o == "svnew":
+            sv, sv_saw, sv_fin = [], False, None
+            out.append("ok")
+        elif o == "svins":
+            if w[1] in unkw:
+                sv_saw = True
+                out.append("0")
+            else:
+                sv.append((int(w[2]), w[1], len(sv) + 1))
+                out.append(str(len(sv)))
+        elif o == "svfin":
+            srt = sorted(sv)
+            sv_fin = {hw: r + 1 for r, (_, hw, _) in enumerate(srt)}
+            out.append("%d %d %d %d | %s" % (len(sv) + 1, sv_saw, sv_fin.get(hexw("<s>"), 0), sv_fin.get(hexw("</s>"), 0),
+                                            " ".join(["0"] + [str(old) for _, _, old in srt])))
+        elif o == "svidx":
+            out.append(None if sv_fin is None else str(sv_fin.get(w[1], 0)))
+        else:
+            out.append(None)
+    return out
+
+
+def vocab_mismatch(ops, got):
+    want = vocab_oracle(ops)
+    for i, w in enumerate(want):
+        if w is None:
+            continue
+        if i >= len(got) or got[i] != w:
+            return i, w
+    return None
+
+
+def vocab_stream(ctx, vexe, dexe, n_cases):
+    hashes, close, buckets = vocab_pool(ctx.rng, vexe)
+    if hashes is None:
+        ctx.violation("vocab stream: " + str(buckets), {"stream": "vocab"}, no_input=True)
+        return True
+    ctx.hist("vocab.pool_words", len(hashes) // 500 * 500)
+    found = False
+    n_viol = 0
+    for ci in range(n_cases):
+        if n_viol >= 3:
+            break
+        ops, meta = gen_vocab_case(ctx.rng, hashes, close, buckets)
+        rc1, o1, e1 = stream.run_lines(vexe, ops, timeout=30)
+        rc2, o2, e2 = stream.run_lines(dexe, ops, timeout=60)
+        tag = "vocab." + meta["kind"]
+        ctx.count((tag, tuple(ops)), nontrivial=meta.get("types", 0) >= 3)
+        ctx.hist(tag + ".types", min(meta.get("types", 0), 300) // 20 * 20)
+        if meta["kind"] == "growable":
+            ctx.hist("vocab.growable.init", min(meta["init"], 200))
+        if meta["kind"] == "probing":
+            ctx.hist("vocab.probing.mult", meta["mult"])
+            ctx.hist("vocab.probing.header_too_small", meta["short"])
+        if ci < 2:
+            ctx.sample({"stream": tag, "ops": ops[:10], "impl": o1[:10]})
+        if rc1 != 0:
+            small = stream.ddmin(ops, lambda l: stream.run_lines(vexe, l, timeout=5)[0] == rc1, keep_prefix=2, max_tests=40)
+            rcs, _, es = stream.run_lines(vexe, small, timeout=5)
+            ctx.violation(("vocabulary loops (timeout)" if rcs == "timeout" else
+                           "harness died on vocabulary script (rc=%s): %s" % (rcs, es[-400:])),
+                          {"stream": tag, "ops": small, "stderr": es[-2000:]})
+            found = True
+            n_viol += 1
+            continue
+        bad = vocab_mismatch(ops, o1)
+        if bad:
+            def fails(l):
+                rc, o, _ = stream.run_lines(vexe, l, timeout=5)
+                return rc == 0 and vocab_mismatch(l, o) is not None
+            small = stream.ddmin(ops, fails, keep_prefix=2, max_tests=120)
+            rc, o, _ = stream.run_lines(vexe, small, timeout=5)
+            b2 = vocab_mismatch(small, o) if rc == 0 else None
+            idx = b2[0] if b2 else len(small) - 1
+            ctx.violation("vocabulary answers %r where the oracle (first occurrence / file order / hash rank) says %r (op %r)" % (
+                o[idx] if idx < len(o) else None, vocab_oracle(small)[idx], small[idx]),
+                {"stream": tag, "ops": small, "op_index": idx, "impl": o[:idx + 1]})
+            found = True
+            n_viol += 1
+        d = stream.first_diff(o1, o2)
+        if d is not None or rc2 != 0:
+            small = stream.ddmin(ops, lambda l: stream.disagree(vexe, dexe, l, timeout=20), keep_prefix=2, max_tests=120)
+            (r1, a1, _), (r2, a2, _) = stream.both(vexe, dexe, small, timeout=20)
+            d2 = stream.first_diff(a1, a2)
+            ctx.violation("model and implementation disagree on a vocabulary operation",
+                          {"stream": tag, "ops": small, "first_diff": d2,
+                           "impl": a1[d2] if d2 is not None and d2 < len(a1) else None,
+                           "model": a2[d2] if d2 is not None and d2 < len(a2) else None},
+                          no_input=not found)
+            found = True
+            n_viol += 1
+    return found
+
+
 HARNESS_EXTRA = ["/util/bit_packing.cc", "/util/exception.cc", "/util/integer_to_string.cc", "/util/mmap.cc",
                  "/util/file.cc", "/util/scoped.cc", "/util/parallel_read.cc", "/util/spaces.cc", "/util/string_piece.cc"]
 
@@ -724,20 +1009,32 @@ def run(ctx):
     priv = os.path.join(scratch_dir("run"), "c20_%d_%s" % (os.getpid(), os.path.basename(hexe)))
     shutil.copy2(hexe, priv)
     hexe = priv
+    okv, vexe, lgv = repo.harness("c20_vocab.cc", config="asan", libs=True)
+    if not okv:
+        problems.append(lgv)
+        flow.report_obligation_failures(ctx, problems, False)
+        return
+    privv = os.path.join(scratch_dir("run"), "c20v_%d_%s" % (os.getpid(), os.path.basename(vexe)))
+    shutil.copy2(vexe, privv)
     try:
-        _streams(ctx, problems, hexe, dexe)
+        _streams(ctx, problems, hexe, dexe, privv)
     finally:
+        try:
+            os.remove(privv)
+        except OSError:
+            pass
         try:
             os.remove(priv)
         except OSError:
             pass
 
 
-def _streams(ctx, problems, hexe, dexe):
+def _streams(ctx, problems, hexe, dexe, vexe):
     n = 150 if ctx.tier == "quick" else 4000
     found = bits_stream(ctx, hexe, dexe, n)
     found = search_stream(ctx, hexe, dexe, n) or found
     found = probing_stream(ctx, hexe, dexe, 300 if ctx.tier == "quick" else 6000) or found
+    found = vocab_stream(ctx, vexe, dexe, 60 if ctx.tier == "quick" else 1500) or found
     ctx.cov["rule"] = ("bits: seeded scripts over buffers of 8..96 bytes with disjoint zero fields (widths 1..57 / 1..25 / "
                        "float32 / float31) among all-ones, random or zero neighbours, every bit offset mod 8; a case is "
                        "non-trivial when it has >= 2 fields; distinct by op script.  probing: seeded op scripts on the real "
@@ -745,11 +1042,19 @@ def _streams(ctx, problems, hexe, dexe):
                        "(initial size 0..300, up to 400 keys), identity / multiplicative / shift hash, invalid key 0 or not, keys "
                        "crafted to share ideal buckets and to cluster at the end of the table; non-trivial when >= 3 keys are "
                        "stored and at least one sits away from its ideal bucket; answers, size, content and the exact slot "
-                       "layout compared")
+                       "layout compared.  vocab: op scripts on the real lm::ngram::GrowableVocab (initial sizes 0..5000), "
+                       "ProbingVocabulary (bucket count from Size(entries, multiplier), multipliers 1.01..5, header count "
+                       "sometimes too small: must throw) and SortedVocabulary (Insert, FinishedLoading with tagged weights, "
+                       "Index); words from a pool of 3000 (incl. <unk>/<UNK>/<s>/</s> present or absent and the 40 pairs with "
+                       "the closest MurmurHash values); the model works on the 64-bit hashes reported by the real code; "
+                       "oracle: first occurrence / file order / hash rank by word string; non-trivial when >= 3 types")
     ctx.assumptions += ["little-endian x86-64 (BitPackShift identity branch)",
                         "target bits zero before Write* and value < 2^len (documented contract) for the property oracle; "
                         "contract-violating writes are compared with the model only",
                         "probing: the invalid key is never inserted and Insert is only called with keys not yet present "
                         "(documented contract); 64-bit keys, values and hashes; AutoProbing's threshold `buckets * 0.9` in "
-                        "double precision equals floor(9*buckets/10) (compared on every doubling through the bucket count)"]
+                        "double precision equals floor(9*buckets/10) (compared on every doubling through the bucket count)",
+                        "vocab: MurmurHash64A is abstract (the real values are fed to the model); it is injective and non-zero "
+                        "on the word pool (checked when the pool is built; colliding or zero-hash words are dropped); words "
+                        "other than <unk>/<UNK> are inserted once into ProbingVocabulary / SortedVocabulary (ARPA contract)"]
     flow.report_obligation_failures(ctx, problems, found)
